@@ -1509,21 +1509,8 @@ class Qube(object):
                         be replaced.
         """
 
-        if not self.DERIVS_OK:
-            raise TypeError('derivatives are disallowed in class '
-                            + type(self).__name__)
-
         # Make sure the derivative is compatible with the object
-        if not isinstance(deriv, Qube):
-            raise ValueError('invalid class for derivative "%s" in %s object: '
-                             '%s'
-                             % (key, type(self).__name__, type(deriv).__name__))
-
-        if self._numer_ != deriv._numer_:
-            raise ValueError('shape mismatch for numerator of derivative '
-                             '"%s" in %s object: %s, %s'
-                             % (key, type(self).__name__, deriv._numer_,
-                                self._numer_))
+        self._require_compatible_deriv(key, deriv)
 
         if self.readonly and (key in self._derivs_) and not override:
             raise ValueError('derivative "%s" cannot be replaced in %s object; '
